@@ -218,6 +218,25 @@ def extract():
     no_hooks = re.sub(r"#\[cfg\(cstree_verif\)\]\s*impl[^{]*\{(?:[^{}]|\{[^{}]*\})*\}", "", no_hooks)
     facts["allRefCountOpsAreRmw"] = not re.search(r"ref_count\s*\.\s*(load|store)\s*\(", no_hooks) and not re.search(r"\}\s*\.\s*(load|store)\s*\(", no_hooks)
 
+    # ---- per-node data slot: which lock mode each operation takes, and that it takes it once --------
+    def data_locks(fn):
+        b = body_of(no_hooks, r"pub\s+fn\s+" + fn + r"\s*\(")
+        if b is None:
+            return None
+        return re.findall(r"\.\s*data\s*\.\s*(try_write|try_read|upgradable_read|write|read)\s*\(", b)
+    modes = {}
+    for (fn, key) in (("set_data", "dataSetW"), ("try_set_data", "dataTrySetW"), ("get_data", "dataGetW"), ("clear_data", "dataClearW")):
+        ls = data_locks(fn)
+        modes[fn] = ls
+        facts[key] = (ls == ["write"])
+    facts["dataOneSectionPerOp"] = all(ls is not None and len(ls) == 1 and ls[0] in ("write", "read") for ls in modes.values())
+    # the slot is only reachable through its lock (the lock owns the value)
+    facts["dataSlotInsideLock"] = bool(re.search(r"data\s*:\s*RwLock\s*<\s*Option\s*<\s*Arc\s*<\s*D\s*>\s*>\s*>", no_hooks))
+    # ---- child slots: a candidate is installed only into an empty slot ----------------------------
+    twn = body_of(no_hooks, r"fn\s+try_write\s*\(")
+    facts["slotInstallOnlyIfEmpty"] = bool(twn and re.search(r"if\s+slot\s*\.\s*is_none\s*\(\s*\)\s*\{\s*\*\s*slot\s*=\s*Some\s*\(\s*elem\s*\)\s*;\s*\}\s*else\s*\{", twn))
+    facts["slotAssignments"] = len(re.findall(r"\*\s*slot\s*=", no_hooks))
+
     # ---- derive macro: comparator of the generated range assertion ------------------------------
     dl = strip_comments(read("cstree-derive/src/lib.rs"))
     m = re.search(r"assert!\s*\(\s*raw\.0\s*(<=|<)\s*#variant_count", dl)
